@@ -70,6 +70,7 @@ fn run(module: &str, command: &str, kv: &common::Args) -> i32 {
         ("c19", "drive") => c19::drive(kv),
         ("c19", "show") => c19::show(kv),
         ("c10", "drive") => c10::drive(kv),
+        ("c10", "race") => c10::race(kv),
         ("c11", "drive") => c11::drive(kv),
         ("c12", "drive") => c12::drive(kv),
         ("c12", "conc") => c12::conc(kv),
